@@ -151,6 +151,13 @@ const GRID2: u64 = 60 * 2 * 16 * 7;
 const GRID3: u64 = 900 * 22 * 3;
 /// coefficients 1..=12 x every precision 1..=150
 const GRID4: u64 = 12 * 150;
+/// exhaustive short operands x tiny precisions
+fn grid5(tier: Tier) -> u64 {
+    match tier {
+        Tier::Quick => 99_999 * 4,
+        Tier::Thorough => 999_999 * 5,
+    }
+}
 
 fn budget(p: u64) -> u64 {
     // quadratic convergence from a relative error <= 0.66: ~log2(5.5 (p+2)) iterations, +2 to see the repeat
@@ -456,13 +463,13 @@ impl Property for C12 {
         "exploration"
     }
     fn runs(&self, tier: Tier) -> u64 {
-        GRID + GRID2 + GRID3 + GRID4 + match tier {
+        GRID + GRID2 + GRID3 + GRID4 + grid5(tier) + match tier {
             Tier::Quick => 60_000,
             Tier::Thorough => 6_000_000,
         }
     }
 
-    fn generate(&self, rng: &mut Rng, _tier: Tier, run: u64) -> Trace {
+    fn generate(&self, rng: &mut Rng, tier: Tier, run: u64) -> Trace {
         if run < GRID {
             // deterministic enumeration of the terminating reciprocals the property names:
             // x = 2^i 5^j (all i <= 60, j <= 30) at one below, at, and one / two above their exact length, all 7 modes
@@ -526,6 +533,24 @@ impl Property for C12 {
             let prec = r / 12 + 1;
             let x = Dec::new(rng.chance(1, 2), &c.to_string(), rng.range(-30, 30));
             return Trace { x, prec, mode: *rng.pick(&MODES), via: Via::Ctx, env: EnvSel::All, transport: (run % 7) as u8 };
+        }
+        let g5 = grid5(tier);
+        if run < GRID + GRID2 + GRID3 + GRID4 + g5 {
+            // exhaustive short operands at the tiny precisions the property stresses: every coefficient below 10^5
+            // at p = 1..4 (thorough: below 10^6 at p = 1..5). An intermediate Newton iterate that lands exactly on a
+            // special value (1.000, 10^j) does so for a handful of such operands only. Native exp2: the guess is
+            // part of what makes the coincidence.
+            let r = run - GRID - GRID2 - GRID3 - GRID4;
+            let (cmax, pmax) = match tier {
+                Tier::Quick => (99_999u64, 4u64),
+                Tier::Thorough => (999_999u64, 5u64),
+            };
+            let c = r % cmax + 1;
+            let prec = r / cmax + 1;
+            debug_assert!(prec <= pmax);
+            let mode = MODES[((c + prec) % 7) as usize];
+            let x = Dec::new(c % 2 == 0, &c.to_string(), (c % 13) as i64 - 6 + c.to_string().len() as i64);
+            return Trace { x, prec, mode, via: Via::Ctx, env: EnvSel::One(FloatEnv::Native), transport: 0 };
         }
         let via = if rng.chance(1, 5) { *rng.pick(&VIAS_DEFAULT) } else { Via::Ctx };
         if via != Via::Ctx && rng.chance(1, 2) {
@@ -852,7 +877,7 @@ impl Property for C12 {
         Some(("L1-terminates", 180))
     }
     fn exhaustive_note(&self, _tier: Tier) -> Option<String> {
-        Some("grids: coefficients 1..12 x every precision 1..150; every 3-digit prefix x 1..22 digits x p = 1..3 (native exp2); every x = 99..9 and 100..01 (1..60 nines / zeros) x 16 precisions placed relative to the length x 7 modes; every x = 2^i 5^j (i <= 60, j <= 30; random sign and power-of-ten scale) x precisions {L-1, L, L+1, L+2} around the exact length L of 1/x x all 7 modes is enumerated; per execution the admissible exp2 set is enumerated".into())
+        Some("grids: every coefficient below 10^5 x p = 1..4 (thorough: below 10^6 x p = 1..5), native exp2; coefficients 1..12 x every precision 1..150; every 3-digit prefix x 1..22 digits x p = 1..3 (native exp2); every x = 99..9 and 100..01 (1..60 nines / zeros) x 16 precisions placed relative to the length x 7 modes; every x = 2^i 5^j (i <= 60, j <= 30; random sign and power-of-ten scale) x precisions {L-1, L, L+1, L+2} around the exact length L of 1/x x all 7 modes is enumerated; per execution the admissible exp2 set is enumerated".into())
     }
 }
 
